@@ -4,6 +4,7 @@
 //! ndjson observation records; all property logic lives in the TLA+ specifications.
 #![allow(dead_code)]
 
+pub mod chanlib;
 pub mod fx;
 pub mod jout;
 
